@@ -404,3 +404,15 @@ func Addr(typ string, n int) uintptr {
 	}
 	return reflectPtr(p[1])
 }
+
+// SV: 64 int variables for the scale world (spec/Scale.tla, function instance bound to variables): SV[i] = 1000*(i+1).
+var SV [64]int
+
+// RestoreSV puts the original values back (the harness, not goom, between behaviours).
+func RestoreSV() {
+	for i := range SV {
+		SV[i] = 1000 * (i + 1)
+	}
+}
+
+func init() { RestoreSV() }
